@@ -55,7 +55,7 @@ def cases(tier, seed):
                 if len(pairs) > cap:
                     pairs = pairs[:2] + rng.sample(pairs[2:], cap - 2)
                 for ra, rb in pairs:
-                    if kind in ('real', 'log') and patterns.nelems(ra) + patterns.nelems(rb) > (6 if kind == 'real' else 4):
+                    if kind in ('real', 'log') and patterns.nelems(ra) + patterns.nelems(rb) > (6 if kind == 'real' else 3):
                         continue
                     da, db = rng.choice([('zero', 'zero'), ('zero', 'zero'), ('one', 'zero'), ('zero', 'top'), ('top', 'one')])
                     cs.append({'entry': 'pt_solve', 'semiring': kind, 'types': patterns.depict_type(t),
@@ -80,6 +80,18 @@ def cases(tier, seed):
                         cs.append({'entry': 'multi_solve', 'semiring': kind, 'shapes': shapes, 'ablocks': ab, 'bblocks': bb, 'transpose': tr})
                         if mask % 3 == 0:
                             cs.append({'entry': 'multi_mv', 'semiring': kind, 'shapes': shapes, 'ablocks': ab, 'bblocks': bb, 'transpose': tr})
+        if kind in ('viterbi', 'bool'):
+            # three keys with scalar blocks: every one of the 2^9 present/absent patterns of A (fill-in during elimination)
+            keys = ['x', 'y', 'z']
+            all9 = [(a, b) for a in keys for b in keys]
+            for mask in range(512):
+                if tier == 'quick' and kind == 'bool' and mask % 2:
+                    continue
+                ab = [all9[i] for i in range(9) if mask >> i & 1]
+                bb = [k for i, k in enumerate(keys) if (mask * 7 + 3) >> i & 1] or ['x']
+                for tr in (False, True):
+                    cs.append({'entry': 'multi_solve', 'semiring': kind, 'shapes': {'x': [], 'y': [], 'z': []}, 'keys': keys,
+                               'ablocks': ab, 'bblocks': bb, 'transpose': tr})
     return cs
 
 
@@ -109,7 +121,7 @@ def run_case(col, case, dt='float32'):
     else:
         numel = {k: math.prod(v) for k, v in case['shapes'].items()}
         sizes = [sum(numel[a] * numel[b] for a, b in case['ablocks']), sum(numel[k] for k in case['bblocks'])]
-        ny = numel['x'] + numel['y']
+        ny = sum(numel.values())
     nunk = sum(sizes)
     rng = random.Random(hash(repr(case)) & 0xffff)
     if kind in ('viterbi', 'bool'):
